@@ -523,7 +523,7 @@ public:
      */
     struct country_params {
         // String identifier: 3 bytes
-        static const size_t minimum_size = 3 + sizeof(uint8_t) * 3;
+        static const size_t minimum_size = 3;
         
         std::string country;
         byte_array first_channel, number_channels, max_transmit_power;
